@@ -169,7 +169,8 @@ def build(w, variant='map'):
     cache_ok = 'allocated(self._cache) and allocated(self._event)'
     wf = ('self._chunksize > 0 and self._length >= 0 and seq_len(self._value) == self._length and '
           'self._number_left >= 1 and self._number_left <= %s and ' % NCHUNKS + cache_ok +
-          ' and allocated(self._accepted) and len(self._accepted) >= 0')
+          ' and allocated(self._accepted) and len(self._accepted) >= 0 and allocated(self._worker_pid) and '
+          'len(self._worker_pid) == self._length')
 
     # ---- MapResult._set: chunk i goes to [i*cs, (i+1)*cs), nothing else moves ---------------------
     chunk_len = 'ite((i + 1) * %s <= self._length, %s, self._length - i * %s)' % (CS, CS, CS)
@@ -182,7 +183,7 @@ def build(w, variant='map'):
                   'result_of_chunk_i': 'implies(success_result[0], seq_len(success_result[1]) == %s)' % chunk_len,
                   'hooks': 'is_hook(self._callback) == False or True'},
         modifies=['self._value', 'self._number_left', 'self._success', 'self._event.flag', 'self._cache.*', 'g.ncalls',
-                  'g.cb_raised'],
+                  'g.cb_raised', 'self._worker_pid.*'],
         ensures={
             'chunk_stored_at_its_own_positions': Forall({'k': 'ints()'},
                 'implies(success_result[0] and i * %s <= k and k < i * %s + %s, '
